@@ -698,6 +698,15 @@ func definitelyNonNilErr(v ssa.Value, at *ssa.BasicBlock, depth int) bool {
 		return true
 	case *ssa.ChangeInterface:
 		return definitelyNonNilErr(x.X, at, depth+1)
+	case *ssa.UnOp:
+		// package-level error sentinels (io.EOF, io.ErrShortBuffer, ...) are never nil
+		if x.Op == token.MUL {
+			if g, ok := x.X.(*ssa.Global); ok {
+				if p, ok := g.Type().(*types.Pointer); ok && isErrorType(p.Elem()) {
+					return true
+				}
+			}
+		}
 	case *ssa.Call:
 		k := calleeKey(x.Common())
 		switch {
